@@ -107,15 +107,21 @@ def main():
     status = 0
     # every reported class is replayed twice without the explorer: differing verdicts mean
     # nondeterminism the harness does not own -> hard error, not a violation
+    notes = {}
     for key, vs in sorted(by_key.items()):
         v = vs[0]
         if getattr(mod, "REPLAYABLE", True):
             r1 = mod.replay(v["case"])
             r2 = mod.replay(v["case"])
-            if r1 != r2 or not r1[0]:
-                print("HARNESS ERROR: replay of %s is not deterministic / does not reproduce: %r vs %r" % (key, r1, r2))
+            if r1 != r2:
+                print("HARNESS ERROR: two replays of %s disagree (nondeterminism the harness does not own): %r vs %r" % (key, r1, r2))
                 print("case:", json.dumps(v["case"])[:2000])
                 status = max(status, 3)
+            elif not r1[0]:
+                # observed during the exploration but not when the case runs alone from the import-time state:
+                # the outcome depends on what the process did before (the subject of C12). It is still a wrong
+                # result for this input, so it is reported, with this note.
+                notes[key] = "NOT reproducible in isolation: the outcome depended on earlier cases in the same process (history dependence, see C12)"
     new_classes = 0
     for key, vs in sorted(by_key.items()):
         if key in open_keys:
@@ -123,7 +129,7 @@ def main():
             continue
         new_classes += 1
         v = vs[0]
-        rec = {"property": pid, "key": key, "case": v["case"], "detail": v.get("detail"), "cases_in_class": nin(vs),
+        rec = {"property": pid, "key": key, "case": v["case"], "detail": v.get("detail"), "cases_in_class": nin(vs), "note": notes.get(key),
                "tier": tier, "seed": seed}
         os.makedirs(os.path.join(VERIF, "replay"), exist_ok=True)
         path = os.path.join(VERIF, "replay", "%s-%s.json" % (pid, _digest([key, v["case"]])))
@@ -131,6 +137,8 @@ def main():
         if new_classes <= 40:
             print("VIOLATION property=%s replay=%s" % (pid, path))
             print("   class=%s cases=%d detail=%s" % (key, nin(vs), str(v.get("detail"))[:300]))
+            if key in notes:
+                print("   note: " + notes[key])
         status = max(status, 1)
     if new_classes > 40:
         print("... %d further violation classes not listed" % (new_classes - 40))
